@@ -539,6 +539,9 @@ func genHistCase(r *vlib.R, emit func(string)) int {
 			emit(fmt.Sprintf("c q %s %s f %s %s=%s:p%d:-:%s:-", g.route(), name, vlib.B(r.Bool()), name, kind, ttl, lease))
 			g.admitted[name] = true
 			count++
+			if hist != nil && hist.taint {
+				return count // a slow op may have stamped the entry late: end the case
+			}
 			if r.Chance(2, 3) {
 				emit(fmt.Sprintf("c adv %d", g.pickAdvance()))
 				count++
@@ -546,6 +549,9 @@ func genHistCase(r *vlib.R, emit func(string)) int {
 		}
 		head := fmt.Sprintf("n%d", start)
 		for k := 0; k < 3; k++ {
+			if hist != nil && hist.taint {
+				return count
+			}
 			emit(fmt.Sprintf("c q wire %s f %s -", head, vlib.B(r.Bool())))
 			emit(fmt.Sprintf("c adv %d", g.pickAdvance()))
 			count += 2
@@ -734,6 +740,9 @@ func gen(r *vlib.R, n int, tier string, emit func(string)) {
 	for _, sc := range scenarios {
 		for _, op := range sc {
 			emit(op)
+			if strings.HasPrefix(op, "c ") && hist != nil && hist.taint {
+				break // a slow op may have stamped an entry late: drop the rest of this scenario
+			}
 		}
 		n -= len(sc)
 	}
